@@ -11,6 +11,7 @@ import (
 	"encoding/json"
 	"fmt"
 	"os"
+	"unsafe"
 )
 
 var vReplay = map[string]uint64{}
@@ -51,6 +52,26 @@ func vBarrierOn()              {}
 func vBarrierOff()             {}
 func vNote(string)             {}
 func vAliases(s string) bool   { return false }
+
+// vSharesMemory reports whether the backing arrays of a and b overlap; vStrSharesMemory
+// does the same for a string's bytes.
+func vSharesMemory(a, b []byte) bool {
+	if cap(a) == 0 || cap(b) == 0 {
+		return false
+	}
+	pa := uintptr(unsafe.Pointer(&a[:1][0]))
+	pb := uintptr(unsafe.Pointer(&b[:1][0]))
+	return pa < pb+uintptr(cap(b)) && pb < pa+uintptr(cap(a))
+}
+
+func vStrSharesMemory(s string, b []byte) bool {
+	if len(s) == 0 || cap(b) == 0 {
+		return false
+	}
+	ps := uintptr(unsafe.Pointer(unsafe.StringData(s)))
+	pb := uintptr(unsafe.Pointer(&b[:1][0]))
+	return ps < pb+uintptr(cap(b)) && pb < ps+uintptr(len(s))
+}
 func vKnown(id string) bool    { return os.Getenv("VERIF_KNOWN_"+id) != "" }
 
 func vBytes(name string, n int) []byte {
